@@ -117,7 +117,12 @@ def run(tier, seed, replay):
     cases, derive_of, enum_of = [], {}, {}
     for k in range(ncase):
         tr = rng.choice(F.DISPLAY_TRAITS[:-1] + ["Display", "Display", "Debug"])
-        if rng.random() < 0.3 and tr != "Pointer":
+        if rng.random() < 0.04:
+            # one bare placeholder, one argument: an expression with nested generic arguments closed by `>>`
+            c = R.gen_nested_generic_case(rng, k)
+            tr = "Display"
+            enum_of[k] = False
+        elif rng.random() < 0.3 and tr != "Pointer":
             # enums: an enum-level format that wraps (or, for a non-Display derive, merely mentions `_variant`) is an
             # attribute-driven, non-delegating format; without one every variant follows the struct rules
             c = R.gen_enum_case(rng, k, tr, with_flags=True)
